@@ -222,15 +222,6 @@ def run(ck):
         ret = [s for s in si.body if isinstance(s, ast.Return)]
         ok = ok and len(ret) == 1 and 'sorted(sort_keys' in u(ret[0])
     ck.ob('MPT-all-interactions', mol.loc(si), ok, 'sort_interactions returns every interaction type that has at least one interaction', key='MPT-all-interactions|sort_interactions')
-    # sorted_nodes covers all nodes
-    sn = mol.func('Molecule.sorted_nodes')
-    body = [s for s in sn.body if not (isinstance(s, ast.Expr) and isinstance(s.value, ast.Constant))]
-    ok = len(body) == 1 and isinstance(body[0], ast.Expr) and isinstance(body[0].value, ast.YieldFrom) and isinstance(body[0].value.value, ast.Call) \
-        and call_name(body[0].value.value) == 'sorted' and u(body[0].value.value.args[0]) == 'self.nodes'
-    if ok:
-        lam = kwarg(body[0].value.value, 'key')
-        ok = isinstance(lam, ast.Lambda) and u(lam.body) == "self.nodes[{}].get('atomid', np.inf)".format(lam.args.args[0].arg) and kwarg(body[0].value.value, 'reverse') is None
-    ck.ob('MPT-atoms', mol.loc(sn), ok, 'sorted_nodes yields every node, ordered by atom id (a missing id sorts last; the id 0 is an id like any other)',
-          key='MPT-atoms|sorted_nodes')
+    shared.sorted_nodes_rule(ck, 'MPT-atoms')
     shared.truthy_zero(ck, ['vermouth/gmx/itp.py', 'vermouth/molecule.py'])
     ck.assume('textual alignment and parameter formatting are not decided; reading the text back is not modelled')
